@@ -63,7 +63,8 @@ fn run_one(dir: &std::path::Path, fx: &Fixture, pat: &str, fold: bool) -> Value 
     let specs: [(&str, &str, &str, String); 3] = [
         ("lname", "L", if fold { "-ilname" } else { "-lname" }, pat.to_string()),
         ("name", "N", if fold { "-iname" } else { "-name" }, pat.to_string()),
-        ("path", "N", if fold { "-ipath" } else { "-path" }, format!("N/{}", pat)),
+        // -wholename is another spelling of -path
+        ("path", "N", match (fold, pat.len() % 2 == 0) { (true, false) => "-ipath", (true, true) => "-iwholename", (false, false) => "-path", (false, true) => "-wholename" }, format!("N/{}", pat)),
     ];
     for (key, root, prim, p) in specs.iter() {
         let args: Vec<String> = vec![root.to_string(), "-mindepth".into(), "1".into(), prim.to_string(), p.clone(), "-print0".into()];
@@ -146,6 +147,8 @@ impl Prop for PGlob {
                                 pat.extend([58, 93]);
                             }
                             3 => pat.push(45),
+                            // a literal '[' as a member (it does not open anything unless ':' follows)
+                            4 if rng.chance(1, 2) => pat.push(91),
                             _ => pat.push(*rng.pick(&lits)),
                         }
                     }
